@@ -1129,7 +1129,7 @@ class SparseArray:
         rows = self.rows
         if axis is None:
             arr = max([i.max() for i in rows])
-            if keepdims: arr = SparseArray.from_rows([SparseVector.from_dict({0: arr}, 1)])
+            if keepdims: arr = SparseArray.from_rows([SparseVector.from_dict({0: arr} if arr else {}, 1)])
         elif axis == 0:
             keys = set()
             dtype = self.dtype
@@ -1172,7 +1172,7 @@ class SparseArray:
         rows = self.rows
         if axis is None:
             arr = min([i.min() for i in rows])
-            if keepdims: arr = SparseArray.from_rows([SparseVector.from_dict({0: arr}, 1)])
+            if keepdims: arr = SparseArray.from_rows([SparseVector.from_dict({0: arr} if arr else {}, 1)])
         elif axis == 0:
             dtype = self.dtype
             if dtype is bool:
